@@ -529,8 +529,12 @@ func payloadIsSerialisedRecord(c *Ctx, w *ssa.Call) (bool, string) {
 	if !ok || calleeKey(&rc.Call) != c.pkgFn("RedactMongoLog") {
 		return false, "serialiser input is not RedactMongoLog's result"
 	}
-	tc, ok := resolveAt(rc.Call.Args[0], rc.Block()).(*ssa.Call)
-	if !ok || calleeKey(&tc.Call) != "(*bufio.Scanner).Text" {
+	lineArg := resolveAt(rc.Call.Args[0], rc.Block())
+	if cv, isConv := lineArg.(*ssa.Convert); isConv {
+		lineArg = resolveAt(cv.X, rc.Block())
+	}
+	tc, ok := lineArg.(*ssa.Call)
+	if !ok || (calleeKey(&tc.Call) != "(*bufio.Scanner).Text" && calleeKey(&tc.Call) != "(*bufio.Scanner).Bytes") {
 		return false, "redactor input is not the scanned line"
 	}
 	return true, "writes string(MarshalOrdered(RedactMongoLog(scanner.Text()))) and nothing else"
